@@ -31,7 +31,9 @@ RATES = [50, 75, 100, 128, 200, 250, 300]
 def generate(seed, prop):
     rng = rng_for(seed)
     n_rec = rng.randint(1, 3)
-    recs = [{"k": rng.randrange(1 << 30), "n": rng.randint(100, 3000), "rate": rng.choice(RATES),
+    long_world = rng.random() < 0.04                      # an hour-long record: relative tolerances span several samples
+    recs = [{"k": rng.randrange(1 << 30), "n": rng.randint(100, 3000) if not long_world else rng.randint(150000, 400000),
+             "rate": rng.choice(RATES),
              "deg": rng.choice([0.0, 0.0, 33.0, 359.5, 400.0, -20.0]),
              "meta": {"site": "S%d" % i, "nested": {"list": [1, 2, 3]}, "tuple_like": [0.5, 2]}} for i in range(n_rec)]
     fault_rate = rng.choice([0.0, 0.0, 0.2, 0.5])
@@ -42,10 +44,16 @@ def generate(seed, prop):
     for k in list(w):
         if rng.random() < 0.12 and k not in ("save", "load"):
             w[k] = 0.0
-    names = list(w)
+    if long_world:
+        recs = recs[:1]
+        for k in w:
+            if k not in ("trim", "copy", "orient"):
+                w[k] = 0.0
+        w["trim"] = 3.0
+    names = [k for k in w if w[k] > 0]
     ops = []
     from ..core import deep
-    for _ in range(rng.randint(3, 44 if deep() else 22)):
+    for _ in range((rng.randint(3, 44 if deep() else 22)) if not long_world else rng.randint(2, 5)):
         name = rng.choices(names, [w[k] for k in names])[0]
         ops.append(draw_op(rng, name, fault_rate))
     return {"machine": "recording", "property": prop, "run_seed": int(seed),
@@ -57,7 +65,8 @@ def draw_op(rng, name, fault_rate):
     i = rng.randrange(16)
     if name == "trim":
         # times are expressed as fractions of the record's duration (resolved at run time)
-        kind = rng.choice(["inside", "inside", "on_sample", "between", "outside_end", "negative", "inverted", "whole"])
+        kind = rng.choice(["inside", "inside", "on_sample", "between", "outside_end", "negative", "inverted", "whole",
+                           "just_past_end", "near_end"])
         return {"op": "trim", "i": i, "kind": kind, "a": rng.random(), "b": rng.random(),
                 "off": rng.choice([0.0, 0.25, 0.4, 0.49, 0.51, 0.75])}
     if name == "filter":
@@ -210,6 +219,10 @@ def step(ctx, st, op, H):
             s, e = a * T, T + (0.5 + b) * dt * 3
             if op["off"] in (0.25, 0.4, 0.49):
                 e = T + op["off"] * dt                       # only a fraction of a sample past the end
+        elif kind == "just_past_end":
+            s, e = a * T * 0.5, T * (1 + 3e-7) + 1e-9          # a hair beyond the last sample: outside the record
+        elif kind == "near_end":
+            s, e = a * T * 0.5, T - (1.0 + op["off"]) * dt      # one to two samples before the last one
         elif kind == "negative":
             s, e = -(0.1 + a) * dt * 5, b * T
         elif kind == "inverted":
